@@ -60,3 +60,8 @@ End GC.
 (* the flattenings of the built-in ellipsoids are below 0.00359 *)
 Lemma builtin_flattening : 1 / 298.257 <= 359 / 100000 /\ 1 / 298.257223563 <= 359 / 100000.
 Proof. split; lra. Qed.
+
+(* the hypotheses are satisfiable: a quarter of the equator is a proper pair, with central angle pi/2 *)
+From Interval Require Import Tactic.
+Example proper_pair_witness : proper_pair 0 0 90 0.
+Proof. unfold proper_pair, hav_s, hav_c, rad. split; interval. Qed.
